@@ -1047,7 +1047,15 @@ class StreamWorld(BaseWorld):
         return True
 
     def is_view_locked(self, name):
-        return self.meta[name]['origin'] == 'view'
+        if self.meta[name]['origin'] == 'view':
+            return True
+        # a stream whose phase was linked to a per-phase view shares the view's LOCKED phase container
+        s = self.streams.get(name)
+        try:
+            from thermosteam._phase import LockedPhase
+            return isinstance(getattr(s._imol, '_phase', None), LockedPhase)
+        except Exception:
+            return False
 
     def pre_set_total(self, ev):
         s = self.streams[ev['stream']]
@@ -2369,7 +2377,8 @@ class StreamWorld(BaseWorld):
         pk = universe.package(ev['pkg'])
         if what == 'chemical':
             c = universe.chemical(ev['chem'])
-            r = self.call(ev, lambda: pickle.loads(pickle.dumps(c)))
+            with universe.no_compiled_cache_growth():
+                r = self.call(ev, lambda: pickle.loads(pickle.dumps(c)))
             if r[0] == 'exc':
                 if self.prop == 'C13':
                     self.fail('pickle-raises', f'pickling chemical {ev["chem"]} raised {type(r[1]).__name__}: {r[1]}')
@@ -2398,7 +2407,8 @@ class StreamWorld(BaseWorld):
             return 'ok'
         if what == 'thermo':
             th = pk.thermo
-            r = self.call(ev, lambda: pickle.loads(pickle.dumps(th)))
+            with universe.no_compiled_cache_growth():
+                r = self.call(ev, lambda: pickle.loads(pickle.dumps(th)))
             if r[0] == 'exc':
                 if self.prop == 'C13':
                     self.fail('pickle-raises', f'pickling Thermo raised {type(r[1]).__name__}: {r[1]}')
@@ -2976,7 +2986,8 @@ def restart_copy(obj):
     buf = io.BytesIO()
     _Pickler(buf, protocol=pickle.HIGHEST_PROTOCOL).dump(obj)
     buf.seek(0)
-    return _Unpickler(buf).load()
+    with universe.no_compiled_cache_growth():
+        return _Unpickler(buf).load()
 
 
 FAULTABLE = {'set_energy', 'mix_energy', 'separate_energy', 'read_prop', 'mix_from', 'set_total', 'read_total', 'set_flow', 'read_flow', 'sum', 'separate_out'}
